@@ -13,6 +13,11 @@ CONSTANTS
   BindApis = {"tuple"}
   FreshConfs = {}
   ConstNames = {}
+  BindFilter <- AnyBind
+  ConstVals = {}
+  QuerySpellings = {}
+  CallMaxExtra = 1
+  CallExtraKw = {"z"}
   CallsWithReq = TRUE
   DevKwEval = FALSE
 CONSTRAINT ExportConstraint
